@@ -3,7 +3,7 @@
 transfer function and operator of prysm/propagation.py."""
 import ast
 import gen_c01
-from gen_c01 import u, imag_sign, resolve, local_env
+from gen_c01 import u, imag_sign, resolve, local_env, seq_env, flatten_mul, strip_i_pi, Subst
 from pyexpr2lean import Tr, Untranslatable, get_def, find_assign, find_assigns, find_returns, find_calls, call_arg
 
 M2 = 'Model.C02'
@@ -15,84 +15,74 @@ def asp_items(g, ft, pr):
         params = [a.arg for a in fn.args.args]
         if params != ['samples', 'wvl', 'dx', 'z']:
             raise Untranslatable(f'parameters {params}')
-        wv = find_assigns(fn, 'wvl')
-        if len(wv) != 1:
-            raise Untranslatable('wvl is not rescaled exactly once')
-        wexpr = Tr({'wvl': 'wvl'}, mode='num').expr(wv[0])
-        # ky, kx = (fft.fftfreq(s, dx)... for s in samples)
+        # the frequency vectors: names unpacked from a generator over `samples` (any names, either order)
         gen = [n for n in ast.walk(fn) if isinstance(n, ast.Assign) and isinstance(n.targets[0], ast.Tuple)
                and isinstance(n.value, ast.GeneratorExp)]
         if len(gen) != 1:
             raise Untranslatable('frequency vectors are not built by one generator expression')
         names = [u(t) for t in gen[0].targets[0].elts]
         ge = gen[0].value
-        if u(ge.generators[0].iter) != 'samples' or not u(ge.elt).startswith('fft.fftfreq(s, dx)'):
+        lv = u(ge.generators[0].target)
+        if u(ge.generators[0].iter) != 'samples' or not u(ge.elt).replace(' ', '').startswith(f'fft.fftfreq({lv},dx)'):
             raise Untranslatable(f'frequency vectors: {u(ge)}')
-        env = local_env(fn)
+        # every local followed symbolically (renamed locals, `wvl = wvl / 1e3` re-assigning the parameter, hoisted prefactor ...)
+        env = seq_env(fn.body)
         (ret,) = find_returns(fn)
-        ret_name = None
-        if isinstance(ret, ast.Name) and ret.id in env:
-            ret_name, ret = ret.id, env[ret.id]
-        if not (isinstance(ret, ast.Call) and u(ret.func).endswith('outer') and len(ret.args) == 2):
-            raise Untranslatable(f'return value {u(ret)}')
-        rows, cols = u(ret.args[0]), u(ret.args[1])
-        # is the exponential applied to EVERY frequency sample?  Any element-wise overwrite of the returned array or of
-        # its two factors (subscript store, in-place op on a subscript), or a masking / clipping call, says no.
-        watched = {x for x in (ret_name, rows, cols) if x}
+        r = Subst(env).visit(ast.parse(u(ret), mode='eval').body)
+        r = ast.parse(u(r), mode='eval').body
+        if not (isinstance(r, ast.Call) and u(r.func).endswith('outer') and len(r.args) == 2):
+            raise Untranslatable(f'return value {u(r)[:80]}')
+        # is the exponential applied to EVERY frequency sample?  Any element-wise overwrite of an array that flows into the
+        # result (subscript store, in-place op), or a masking / clipping call, says no.
+        flow, todo = set(), [x.id for x in ast.walk(ret) if isinstance(x, ast.Name)]
+        assigns = {}
+        for node in ast.walk(fn):
+            if isinstance(node, ast.Assign) and len(node.targets) == 1 and isinstance(node.targets[0], ast.Name):
+                assigns.setdefault(node.targets[0].id, []).append(node.value)
+        while todo:
+            nm = todo.pop()
+            if nm in flow or nm in params or nm in names:
+                continue
+            flow.add(nm)
+            for v in assigns.get(nm, []):
+                todo += [x.id for x in ast.walk(v) if isinstance(x, ast.Name)]
         masked = []
         for node in ast.walk(fn):
-            tgts = []
-            if isinstance(node, ast.Assign):
-                tgts = node.targets
-            elif isinstance(node, ast.AugAssign):
-                tgts = [node.target]
+            tgts = node.targets if isinstance(node, ast.Assign) else [node.target] if isinstance(node, ast.AugAssign) else []
             for t in tgts:
-                if isinstance(t, ast.Subscript) and isinstance(t.value, ast.Name) and t.value.id in watched:
+                if isinstance(t, ast.Subscript) and isinstance(t.value, ast.Name) and t.value.id in flow:
                     masked.append(u(node))
-                if isinstance(node, ast.AugAssign) and isinstance(t, ast.Name) and t.id in watched:
+                if isinstance(node, ast.AugAssign) and isinstance(t, ast.Name) and t.id in flow:
                     masked.append(u(node))
             if isinstance(node, ast.Call) and u(node.func).split('.')[-1] in (
                     'where', 'clip', 'putmask', 'copyto', 'place', 'select', 'piecewise', 'nan_to_num', 'minimum', 'maximum'):
                 masked.append(u(node))
-        out = {}
-        for nm in (rows, cols):
-            ex = env[nm]
-            if not (isinstance(ex, ast.Call) and u(ex.func).endswith('exp')):
-                raise Untranslatable(f'{nm} is not an exponential')
-            arg = ex.args[0]
-            if not (isinstance(arg, ast.BinOp) and isinstance(arg.op, ast.Mult) and isinstance(arg.right, ast.Name)):
-                raise Untranslatable(f'exponent of {nm}: {u(arg)}')
-            sq = env[arg.right.id]          # kxx = kx * kx
-            if not (isinstance(sq, ast.BinOp) and isinstance(sq.op, ast.Mult) and u(sq.left) == u(sq.right)
-                    and u(sq.left) in names):
-                raise Untranslatable(f'{arg.right.id} is not a squared frequency vector')
-            sgn, mag = imag_sign(arg.left, {'prefix': env['prefix']})
-            pre = resolve(arg.left, {'prefix': env['prefix']})
-            if mag != 1.0 or 'np.pi' not in u(pre):
-                raise Untranslatable(f'prefix is not +-i*pi*...: {u(pre)}')
-
-            class Strip(ast.NodeTransformer):
-                def visit_Constant(self, node):
-                    return ast.Constant(value=1) if isinstance(node.value, complex) else node
-
-                def visit_UnaryOp(self, node):
-                    self.generic_visit(node)
-                    if isinstance(node.op, ast.USub) and isinstance(node.operand, ast.Constant) and node.operand.value == 1:
-                        return ast.Constant(value=1)
-                    return node
-
-                def visit_Attribute(self, node):
-                    return ast.Constant(value=1) if u(node) == 'np.pi' else node
-            scale = Strip().visit(ast.parse(u(pre), mode='eval').body)
-            term = Tr({'wvl': f'({wexpr})', 'z': 'z'}, mode='num').expr(scale)
-            out[nm] = (sgn, term, names.index(u(sq.left)))
-        if out[rows][1] != out[cols][1]:
+        out = []
+        for ex in r.args:          # rows factor, columns factor
+            if not (isinstance(ex, ast.Call) and u(ex.func).endswith('exp') and len(ex.args) == 1):
+                raise Untranslatable(f'a factor of the outer product is not an exponential: {u(ex)[:80]}')
+            fac = flatten_mul(ex.args[0])
+            ks = [x for x in fac if isinstance(x, ast.Name) and x.id in names]
+            if len(ks) != 2 or ks[0].id != ks[1].id:
+                raise Untranslatable(f'exponent is not coefficient * k * k: {u(ex.args[0])[:80]}')
+            rest = [x for x in fac if not (isinstance(x, ast.Name) and x.id in names)]
+            if not rest:
+                raise Untranslatable('exponent has no coefficient')
+            coef = rest[0]
+            for x in rest[1:]:
+                coef = ast.BinOp(left=coef, op=ast.Mult(), right=x)
+            sgn, mag = imag_sign(coef, {})
+            if mag != 1.0 or 'np.pi' not in u(coef):
+                raise Untranslatable(f'coefficient is not +-i*pi*...: {u(coef)[:80]}')
+            term = Tr({'wvl': 'wvl', 'z': 'z'}, mode='num').expr(strip_i_pi(coef))
+            out.append((sgn, term, names.index(ks[0].id)))
+        if out[0][1] != out[1][1]:
             raise Untranslatable('row and column exponents differ')
         return (f'/-- `exp(sign·iπ·aspCoef·k²)`: the coefficient of `k²` (times π) in the exponent, wavelength rescaled to mm -/\n'
-                f'def aspCoef {{K : Type}} [Num K] (wvl z : K) : K := {out[rows][1]}\n'
-                f'def aspSignRows : Int := {out[rows][0]}\ndef aspSignCols : Int := {out[cols][0]}\n'
+                f'def aspCoef {{K : Type}} [Num K] (wvl z : K) : K := {out[0][1]}\n'
+                f'def aspSignRows : Int := {out[0][0]}\ndef aspSignCols : Int := {out[1][0]}\n'
                 f'/-- which component of `samples` gives the frequency vector of the rows / columns of `outer(tfy, tfx)` -/\n'
-                f'def aspRowsSamplesIdx : Nat := {out[rows][2]}\ndef aspColsSamplesIdx : Nat := {out[cols][2]}\n'
+                f'def aspRowsSamplesIdx : Nat := {out[0][2]}\ndef aspColsSamplesIdx : Nat := {out[1][2]}\n'
                 f'/-- the returned array is `outer(exp(..), exp(..))` untouched: no sample is overwritten, masked or clipped'
                 f'{" -- found: " + "; ".join(masked)[:200] if masked else ""} -/\n'
                 f'def aspTfAppliedToEverySample : Bool := {"false" if masked else "true"}')
@@ -105,29 +95,19 @@ def asp_items(g, ft, pr):
 
     def op():
         fn = get_def(pr, 'angular_spectrum')
-        rets = sorted((n for n in ast.walk(fn) if isinstance(n, ast.Return) and n.value is not None), key=lambda n: n.lineno)
-        rets = [n.value for n in rets]
-        if len(rets) != 2:
-            raise Untranslatable(f'angular_spectrum has {len(rets)} return statements')
-        env = local_env(fn)
+        TFCALL = 'angular_spectrum_transfer_function(field.shape,wvl,dx,z)'
 
-        def flags(r, want_tf):
-            """ifft2(fft2(field) * <tf>) -> (fwd ortho?, inv ortho?)"""
-            r = resolve(r, env)
+        def flags(r):
+            """ifft2(fft2(field) * <tf>) -> (fwd ortho?, inv ortho?, text of the transfer-function factor)"""
             if not (isinstance(r, ast.Call) and u(r.func).split('.')[-1] == 'ifft2' and len(r.args) == 1):
                 raise Untranslatable(f'not an ifft2 call: {u(r)[:70]}')
             kw_i = {k.arg: k.value for k in r.keywords}
-            prod = r.args[0]
-            if not (isinstance(prod, ast.BinOp) and isinstance(prod.op, ast.Mult)):
-                raise Untranslatable(f'ifft2 argument is not a product: {u(prod)[:70]}')
-            a, b = prod.left, prod.right
-            if not (isinstance(a, ast.Call) and u(a.func).split('.')[-1] == 'fft2'):
-                a, b = b, a
-            if not (isinstance(a, ast.Call) and u(a.func).split('.')[-1] == 'fft2' and len(a.args) == 1 and u(a.args[0]) == 'field'):
-                raise Untranslatable(f'no fft2(field) factor: {u(prod)[:70]}')
-            kw_f = {k.arg: k.value for k in a.keywords}
-            if u(b).replace(' ', '') != want_tf:
-                raise Untranslatable(f'transfer-function factor is {u(b)[:70]}')
+            fac = flatten_mul(r.args[0])
+            ff = [x for x in fac if isinstance(x, ast.Call) and u(x.func).split('.')[-1] == 'fft2']
+            if len(fac) != 2 or len(ff) != 1 or len(ff[0].args) != 1 or u(ff[0].args[0]) != 'field':
+                raise Untranslatable(f'ifft2 argument is not fft2(field) * tf: {u(r.args[0])[:70]}')
+            other = [x for x in fac if x is not ff[0]][0]
+            kw_f = {k.arg: k.value for k in ff[0].keywords}
 
             def ortho(kw):
                 if set(kw) - {'norm'}:
@@ -137,14 +117,38 @@ def asp_items(g, ft, pr):
                 if not isinstance(kw['norm'], ast.Constant) or kw['norm'].value not in (None, 'backward', 'ortho'):
                     raise Untranslatable('norm keyword not recognised')
                 return kw['norm'].value == 'ortho'
-            return ortho(kw_f), ortho(kw_i)
-        f_tf = flags(rets[0], 'tf')
-        f_z = flags(rets[1], 'angular_spectrum_transfer_function(field.shape,wvl,dx,z)')
-        # the precomputed-tf branch comes first and is guarded by `tf is not None`; padding by `Q != 1` only on the z branch
-        ifs = [n for n in fn.body if isinstance(n, ast.If)]
-        if len(ifs) != 2 or u(ifs[0].test).replace(' ', '') != 'tfisnotNone' or u(ifs[1].test).replace(' ', '') != 'Q!=1' \
-                or [u(x).replace(' ', '') for x in ifs[1].body] not in (['field=pad2d(field,Q=Q)'], ['field=pad2d(field,Q)']):
-            raise Untranslatable('guards of angular_spectrum not recognised')
+            return ortho(kw_f), ortho(kw_i), u(other).replace(' ', '')
+
+        def is_test(t, which):
+            t = u(t).replace(' ', '')
+            return t in {'given': ('tfisnotNone', 'not(tfisNone)', 'nottfisNone'), 'absent': ('tfisNone',),
+                         'pad': ('Q!=1', '1!=Q', 'not(Q==1)', 'notQ==1')}[which]
+
+        def pad_only(body):
+            return len(body) == 1 and isinstance(body[0], ast.If) and is_test(body[0].test, 'pad') and not body[0].orelse and \
+                [u(x).replace(' ', '') for x in body[0].body] in (['field=pad2d(field,Q=Q)'], ['field=pad2d(field,Q)'])
+        body = [x for x in fn.body if not (isinstance(x, ast.Expr) and isinstance(x.value, ast.Constant))]
+        rets = sorted((n for n in ast.walk(fn) if isinstance(n, ast.Return) and n.value is not None), key=lambda n: n.lineno)
+        if len(rets) == 2 and isinstance(body[0], ast.If) and is_test(body[0].test, 'given') and not body[0].orelse \
+                and body[0].body == [rets[0]] and pad_only(body[1:2]):
+            # shape A: early return for a given tf; then pad (if Q != 1), build the tf, transform
+            f_tf = flags(rets[0].value)
+            tail = body[2:]
+            env = seq_env([x for x in tail if not isinstance(x, ast.Return)], stop={'field'})
+            f_z = flags(ast.parse(u(Subst(env).visit(ast.parse(u(rets[1].value), mode='eval').body)), mode='eval').body)
+            if f_tf[2] != 'tf' or f_z[2] != TFCALL:
+                raise Untranslatable(f'transfer-function factors {f_tf[2][:40]} / {f_z[2][:40]}')
+        elif len(rets) == 1 and isinstance(body[0], ast.If) and is_test(body[0].test, 'absent') and not body[0].orelse \
+                and pad_only(body[0].body[:1]) and len(body[0].body) == 2 \
+                and u(body[0].body[1]).replace(' ', '') == 'tf=' + TFCALL:
+            # shape B: the tf is built (after padding) only when none is given; both paths share one transform
+            env = seq_env([x for x in body[1:] if not isinstance(x, ast.Return)], stop={'field', 'tf'})
+            f_one = flags(ast.parse(u(Subst(env).visit(ast.parse(u(rets[0].value), mode='eval').body)), mode='eval').body)
+            if f_one[2] != 'tf':
+                raise Untranslatable(f'transfer-function factor {f_one[2][:40]}')
+            f_tf = f_z = f_one
+        else:
+            raise Untranslatable('control flow of angular_spectrum not recognised')
         b = lambda x: 'true' if x else 'false'
         return (f'def aspOpFlagsTf : AspOpFlags := {{ fwdOrtho := {b(f_tf[0])}, invOrtho := {b(f_tf[1])} }}\n'
                 f'def aspOpFlagsZ : AspOpFlags := {{ fwdOrtho := {b(f_z[0])}, invOrtho := {b(f_z[1])} }}')
